@@ -137,6 +137,34 @@ def spec_mutants(wd):
 STAGES = ["resolve", "select", "segment", "terminate", "padbyte", "padcw", "ec", "interleave", "blank", "place", "score", "choose", "format", "mask"]
 
 
+def apalache_mutants(wd):
+    """the inductive proofs are not vacuous: a one-line change of the modules they are about must make an obligation fail"""
+    from . import props
+    res = []
+    for name, which, fn, old, new in [
+            ("apalache-select-greater", "MaskSelect", "MaskSelect.tla", "IF bestScore < 0 \\/ score[i] < bestScore", "IF bestScore < 0 \\/ score[i] > bestScore"),
+            ("apalache-file-ok-after-write-fault", "FileInd", "FileOps.tla", '[] fs.phase \\in {"create_failed", "write_failed"} -> F_ReturnErr(fs)', '[] fs.phase \\in {"create_failed", "write_failed"} -> F_ReturnOk(fs)')]:
+        d = os.path.join(wd, "amut_" + name)
+        shutil.rmtree(d, ignore_errors=True)
+        os.makedirs(d)
+        for f in props.APALACHE[which][1]:
+            shutil.copy(os.path.join(SPEC, f), d)
+        p = os.path.join(d, fn)
+        s = open(p).read()
+        if old not in s:
+            raise ToolError(f"selftest: apalache mutant '{name}' no longer applies")
+        open(p, "w").write(s.replace(old, new, 1))
+        try:
+            props.run_apalache(wd, which, specdir=d)
+            ok = False
+        except ToolError:
+            ok = True
+        res.append({"mutant": name, "module": fn, "ok": ok})
+        log(f"[selftest] apalache mutant {name}: {'an obligation fails -> ok' if ok else 'ALL DISCHARGED -> MISSED'}")
+        shutil.rmtree(d, ignore_errors=True)
+    return res
+
+
 def coverage(wd):
     """Which actions of FastQR.tla TLC actually took (TLC's own -coverage mode is pathologically slow on these operators:
     > 10 min for 4 builds).  The state graph of a minimal configuration is dumped with action labels and read back."""
@@ -176,6 +204,8 @@ def main(tier):
             bad.append(name)
     report["spec_mutants"] = spec_mutants(wd)
     bad += [m["mutant"] for m in report["spec_mutants"] if not m["ok"]]
+    report["apalache_mutants"] = apalache_mutants(wd)
+    bad += [m["mutant"] for m in report["apalache_mutants"] if not m["ok"]]
     report["coverage"] = coverage(wd)
     if report["coverage"]["never_taken"]:
         bad.append("coverage:" + ",".join(report["coverage"]["never_taken"]))
